@@ -158,7 +158,6 @@ func verdictOf(self string, m mutant, r mutantResult, repo, known, td, overlay s
 	return r
 }
 
-
 // runPatchMutant builds the variant by applying a recorded unified diff (a seeded
 // breaking change kept under /verif/seeded) to copies of the files it touches,
 // outside /repo, and analyses it through the overlay.
